@@ -4,8 +4,9 @@ import RedisVerif.Model.WalActor
 
 /-
   C09 sub-driver.  One line = one workload:
-    G <fix 0|1> <format 1|2> <maxSize> <maxEntries> F <nf> {<callIndex> <ok|fail|full|torn:K>}*
-      W <ngroups> {<nwrites> {<id> <ts> <hex>}*}*
+    G <fix 0|1> <tickSyncs 0|1> <format 1|2> <maxSize> <maxEntries> F <nf> {<callIndex> <ok|fail|full|torn:K>}*
+      W <ngroups> {<nmsgs> {w <id> <ts> <hex> | f <id> <ts> <hex> | t | x <T>}*}*
+  (w = write_durable, f = write_fire_and_forget, t = sync_tick, x = truncate(T))
   Output: the acks (sorted by id), the I/O call trace, and for EVERY crash index t (after t
   calls) the ids of the entries WAL recovery returns from the crash image.
 
@@ -45,18 +46,21 @@ def showCall : Call → String
   | .create s ok => s!"c{s}:{if ok then "ok" else "err"}"
   | .append s len o => s!"a{s}:{len}:{showOutcome o}"
   | .sync s ok => s!"s{s}:{if ok then "ok" else "err"}"
+  | .delete s ok => s!"d{s}:{if ok then "ok" else "err"}"
 
 structure Workload where
   fix : Bool
+  tick : Bool
   fmt : Format
   maxSize : Nat
   maxEntries : Nat
   faults : List (Nat × Outcome)
-  groups : List (List Write)
+  groups : List (List Ev)
 
 def workloadP : P Workload := do
   expect "G"
   let f ← nat
+  let tk ← nat
   let v ← nat
   let ms ← nat
   let me ← nat
@@ -67,8 +71,15 @@ def workloadP : P Workload := do
   let ng ← nat
   let gs ← repeatP ng (do
     let nw ← nat
-    repeatP nw (do let id ← nat; let ts ← nat; let d ← bytesTok; pure (⟨id, d, ts⟩ : Write)))
-  pure ⟨f != 0, if v = 1 then .v1 else .v2, ms, me, fs, gs⟩
+    repeatP nw (do
+      let k ← tok
+      match k with
+      | "w" => do let id ← nat; let ts ← nat; let d ← bytesTok; pure (Ev.write ⟨id, d, ts⟩)
+      | "f" => do let id ← nat; let ts ← nat; let d ← bytesTok; pure (Ev.forget ⟨id, d, ts⟩)
+      | "t" => pure Ev.tick
+      | "x" => do let T ← nat; pure (Ev.truncate T)
+      | _ => failure))
+  pure ⟨f != 0, tk != 0, if v = 1 then .v1 else .v2, ms, me, fs, gs⟩
 
 def oracleOf (fs : List (Nat × Outcome)) (i : Nat) : Outcome :=
   match fs.find? (·.1 == i) with
@@ -89,8 +100,8 @@ def step (line : String) : String :=
   match runP workloadP line with
   | none => "bad-op"
   | some wl =>
-    let a := Actor.runGroups wl.fix (oracleOf wl.faults) wl.fmt crc wl.maxSize wl.maxEntries wl.groups
-    let ws := wl.groups.flatten
+    let a := Actor.runGroups wl.fix wl.tick (oracleOf wl.faults) wl.fmt crc wl.maxSize wl.maxEntries wl.groups
+    let ws := wl.groups.flatten.filterMap (fun ev => match ev with | .write w => some w | .forget w => some w | _ => none)
     let acks := a.acks.foldl (fun acc x => insertAck x acc) []
     let acksS := " ".intercalate (acks.map (fun x => s!"{x.id}={showAck x.res}"))
     let traceS := " ".intercalate (a.rot.w.trace.reverse.map showCall)
